@@ -222,12 +222,93 @@ def timing(ck):
     return n
 
 
+def answered_calls(ck):
+    """"request-response calls ... either with its result or with an error from the library's connection-error hierarchy":
+    every awaiting APIClient entry point on a live session, the device answering with a message of each type the call
+    subscribed to - same-named fields echoed from the request, every other field at its default or (second variant) booleans
+    true and numbers 1; nothing but a result or an APIConnectionError may come out (bounded in virtual time)"""
+    import inspect
+    import apisurface
+    import simnet
+    from aioesphomeapi import api_pb2 as pb
+    from aioesphomeapi.core import APIConnectionError, MESSAGE_TYPE_TO_PROTO
+    from google.protobuf.descriptor import FieldDescriptor as FD
+    n = 0
+    seen = set()
+    for name, fn in apisurface.entry_points():
+        if not inspect.iscoroutinefunction(fn):
+            continue
+        # which types does the call subscribe to?  (probe once)
+        for variant in ("defaults", "ones"):
+            for pick in range(4):
+                net, client, conn, _stops = simnet.established(keepalive=100000.0)
+                loop = net.loop
+                try:
+                    before = {k: set(v) for k, v in conn._message_handlers.items()}
+                    args, kwargs = apisurface.build_call(name, fn, all_optional=True)
+                    n0 = len(net.written())
+                    try:
+                        coro = fn(client, *args, **kwargs)
+                    except Exception:  # noqa: BLE001 — argument validation before anything is sent
+                        break
+                    o = simnet.spawn(loop, coro, "api")
+                    loop.run_idle()
+                    subs = sorted((k for k, v in conn._message_handlers.items() if set(v) - before.get(k, set())), key=lambda k: k.__name__)
+                    if o.done or pick >= len(subs):
+                        if not o.done:
+                            o.task.cancel()
+                            loop.run_idle()
+                        o.cls()
+                        break
+                    last = None
+                    for _t, ty, payload in net.written()[n0:]:
+                        last = MESSAGE_TYPE_TO_PROTO[ty]()
+                        last.MergeFromString(payload)
+                    m = subs[pick]()
+                    for fd in m.DESCRIPTOR.fields:
+                        if fd.is_repeated or fd.message_type is not None:
+                            continue
+                        if last is not None and fd.name in last.DESCRIPTOR.fields_by_name and last.DESCRIPTOR.fields_by_name[fd.name].type == fd.type \
+                                and not last.DESCRIPTOR.fields_by_name[fd.name].is_repeated:
+                            setattr(m, fd.name, getattr(last, fd.name))
+                        elif variant == "ones":
+                            if fd.type == FD.TYPE_BOOL:
+                                setattr(m, fd.name, True)
+                            elif fd.type in (FD.TYPE_UINT32, FD.TYPE_INT32, FD.TYPE_UINT64, FD.TYPE_FIXED32, FD.TYPE_SINT32):
+                                setattr(m, fd.name, 1)
+                    net.send(m)
+                    loop.run_idle()
+                    for _ in range(14):
+                        if o.done:
+                            break
+                        loop.advance(5.0)
+                    n += 1
+                    if not o.done:
+                        ck.violation(f"c09:call-hangs:{name}", f"{name}() answered with {type(m).__name__} ({variant}) has not ended after 70 s of "
+                                     "virtual time", {"entry": name, "answer": type(m).__name__, "variant": variant})
+                        o.task.cancel()
+                        loop.run_idle()
+                        o.cls()
+                    elif not o.task.cancelled() and o.task.exception() is not None and not isinstance(o.task.exception(), APIConnectionError):
+                        e = o.task.exception()
+                        key = f"c09:raw-escape:{name}:{type(e).__name__}"
+                        if key not in seen:
+                            seen.add(key)
+                            ck.violation(key, f"{name}() answered by the device with {type(m).__name__} ({variant}: "
+                                         f"{str(m).strip().replace(chr(10), ', ')[:120]}) let a raw {type(e).__name__} escape: {e}",
+                                         {"entry": name, "answer": type(m).__name__, "variant": variant, "answer_payload": m.SerializeToString().hex()})
+                finally:
+                    net.close()
+    return n
+
+
 def run(ck):
     c05.run(ck, spec=lambda obs, lines, info: connlts.spec_c09(obs, lines, info),
             keys=("st", "fatal", "start", "finish", "disc"),
             what="connection LTS != implementation (error/outcome projection)", pid="C09", timed=True)
     n = timing(ck)
     ck.coverage["timing_scripts_compared"] = n
+    ck.coverage["request_response_calls_answered"] = answered_calls(ck)
     ck.assumptions += ["timing scripts: one address, delays on a grid around each guard (0, small, bound-1, bound, bound+1); "
                        "disconnect is timed on an established session (its wait for a finish phase in progress is covered by the "
                        "shared pool and the bound check only)"]
